@@ -9,7 +9,11 @@ Inductive case :=
 | Val (m : market) (ex_l ex_s : Z) (r1 : res unit) (tok ex : Z) (r2 : res unit)
       (t1 t2 a1 a2 : Z) (r3 : res unit)
 (* a history over several markets sharing vaults *)
-| Hist (w0 : snap) (ops : list (op * res snap)).
+| Hist (w0 : snap) (ops : list (op * res snap))
+(* one real revertible_swap (SwapMarkets) over several real markets sharing vaults, committed when it succeeds:
+   (id, long, short, recorded long balance, recorded short balance) of every market after the real transfer-in and
+   after the swap, and the ghost vault counters (what was really transferred into each vault) *)
+| SwapVault (ms0 : list (Z * Z * Z * Z * Z)) (vs : list (Z * Z)) (ms1 : list (Z * Z * Z * Z * Z)) (ok : bool).
 
 (* ---------------- helpers ---------------- *)
 Definition pool_eqb (a b : pool) : bool := (p_l a =? p_l b) && (p_s a =? p_s b).
@@ -42,8 +46,19 @@ Fixpoint corr_hist (w : world) (ops : list (op * res snap)) : bool :=
       end
   end.
 
+Definition bal5 (m : Z * Z * Z * Z * Z) (tok : Z) : Z :=
+  let '(_, l, s, bl, bs) := m in if tok =? l then bl else if tok =? s then bs else 0.
+Definition total5 (ms : list (Z * Z * Z * Z * Z)) (tok : Z) : Z := fold_right (fun m acc => bal5 m tok + acc) 0 ms.
+Definition m5_eqb (a b : Z * Z * Z * Z * Z) : bool :=
+  let '(i, l, s, bl, bs) := a in let '(i', l', s', bl', bs') := b in
+  (i =? i') && (l =? l') && (s =? s') && (bl =? bl') && (bs =? bs').
+Fixpoint ms5_eqb (a b : list (Z * Z * Z * Z * Z)) : bool :=
+  match a, b with [], [] => true | x :: r, y :: t => m5_eqb x y && ms5_eqb r t | _, _ => false end.
+
 Definition corr_b (c : case) : bool :=
   match c with
+  (* the swap itself is modelled in C44; here only: a failed swap commits nothing *)
+  | SwapVault ms0 vs ms1 ok => ok || ms5_eqb ms0 ms1
   | Val m ex_l ex_s r1 tok ex r2 t1 t2 a1 a2 r3 =>
       res_unit_eqb (validate m ex_l ex_s) r1 && res_unit_eqb (validate_token m tok ex) r2 &&
       res_unit_eqb (validate_excluding m t1 t2 a1 a2) r3
@@ -108,6 +123,10 @@ Definition oracle_b (c : case) : bool :=
       | Err _, _ => true
       end
   | Hist w0 ops => vaults_cover w0 && forallb covers (fst w0) && oracle_hist w0 ops
+  | SwapVault ms0 vs ms1 ok =>
+      (* a swap moves no tokens in or out of any vault: per token, the recorded balances of the markets sharing
+         the vault add up to what they did before, and never to more than the vault holds *)
+      forallb (fun t => (total5 ms1 t <=? vault vs t) && (total5 ms1 t =? total5 ms0 t)) TOKENS
   end.
 
 Definition known_b (c : case) : Z := 0.
